@@ -348,7 +348,7 @@ def hyp_shard(rec, shard):
 
 
 def main(ctx):
-    n = 400 if ctx.tier == 'quick' else 12000
+    n = 1200 if ctx.tier == 'quick' else 12000
     blocks = ['msg', 'msg', 'meta', 'track', 'file', 'neg', 'neg', 'stream', 'arbitrary']
     ctx.pmap('hyp_shard', [(b, i, n) for i, b in enumerate(blocks)] +
              ([(b, 50 + i, n) for i, b in enumerate(blocks)] if ctx.tier == 'thorough' else []))
